@@ -1,0 +1,194 @@
+//go:build verif
+
+package otr3
+
+import "math/big"
+
+// This file is only compiled with -tags verif. It exports thin wrappers around
+// internal (de)serialisers so that the external verification harness can run
+// them on the same inputs as its formal model. It adds no behaviour.
+
+func verifVersion(v int) otrVersion {
+	if v == 2 {
+		return otrV2{}
+	}
+	return otrV3{}
+}
+
+// VerifDHCommitSer serialises a DH-Commit body.
+func VerifDHCommitSer(enc, hash []byte) []byte {
+	return dhCommit{encryptedGx: enc, yhashedGx: hash}.serialize()
+}
+
+// VerifDHCommitDeser parses a DH-Commit body.
+func VerifDHCommitDeser(msg []byte) (enc, hash []byte, ok bool) {
+	c := dhCommit{}
+	if err := c.deserialize(msg); err != nil {
+		return nil, nil, false
+	}
+	return c.encryptedGx, c.yhashedGx, true
+}
+
+// VerifDHKeySer serialises a DH-Key body.
+func VerifDHKeySer(gy *big.Int) []byte { return dhKey{gy: gy}.serialize() }
+
+// VerifDHKeyDeser parses a DH-Key body.
+func VerifDHKeyDeser(msg []byte) (*big.Int, bool) {
+	c := dhKey{}
+	if err := c.deserialize(msg); err != nil {
+		return nil, false
+	}
+	return c.gy, true
+}
+
+// VerifRevealSigSer serialises a Reveal-Signature body.
+func VerifRevealSigSer(r [16]byte, enc, mac []byte, v int) []byte {
+	return revealSig{r: r, encryptedSig: enc, macSig: mac}.serialize(verifVersion(v))
+}
+
+// VerifRevealSigDeser parses a Reveal-Signature body.
+func VerifRevealSigDeser(msg []byte, v int) (r, enc, mac []byte, ok bool) {
+	c := revealSig{}
+	if err := c.deserialize(msg, verifVersion(v)); err != nil {
+		return nil, nil, nil, false
+	}
+	return c.r[:], c.encryptedSig, c.macSig, true
+}
+
+// VerifSigSer serialises a Signature body.
+func VerifSigSer(enc, mac []byte, v int) []byte {
+	return sig{encryptedSig: enc, macSig: mac}.serialize(verifVersion(v))
+}
+
+// VerifSigDeser parses a Signature body.
+func VerifSigDeser(msg []byte) (enc, mac []byte, ok bool) {
+	c := sig{}
+	if err := c.deserialize(msg); err != nil {
+		return nil, nil, false
+	}
+	return c.encryptedSig, c.macSig, true
+}
+
+// VerifDataMsg is the exported image of dataMsg.
+type VerifDataMsg struct {
+	Flag                        byte
+	SenderKeyID, RecipientKeyID uint32
+	Y                           *big.Int
+	TopHalfCtr                  [8]byte
+	EncryptedMsg                []byte
+	Authenticator               []byte
+	OldMACKeys                  [][]byte
+	Cache                       []byte
+}
+
+func (d VerifDataMsg) internal() dataMsg {
+	m := dataMsg{flag: d.Flag, senderKeyID: d.SenderKeyID, recipientKeyID: d.RecipientKeyID,
+		y: d.Y, topHalfCtr: d.TopHalfCtr, encryptedMsg: d.EncryptedMsg, authenticator: d.Authenticator}
+	for _, k := range d.OldMACKeys {
+		m.oldMACKeys = append(m.oldMACKeys, macKey(k))
+	}
+	return m
+}
+
+// VerifDataMsgSerUnsigned is dataMsg.serializeUnsigned.
+func VerifDataMsgSerUnsigned(d VerifDataMsg) []byte { return d.internal().serializeUnsigned() }
+
+// VerifDataMsgSer is dataMsg.serialize (cache unset, so it is recomputed).
+func VerifDataMsgSer(d VerifDataMsg, v int) []byte { return d.internal().serialize(verifVersion(v)) }
+
+// VerifDataMsgDeser is dataMsg.deserialize.
+func VerifDataMsgDeser(msg []byte, v int) (VerifDataMsg, bool) {
+	m := dataMsg{}
+	if err := m.deserialize(msg, verifVersion(v)); err != nil {
+		return VerifDataMsg{}, false
+	}
+	r := VerifDataMsg{Flag: m.flag, SenderKeyID: m.senderKeyID, RecipientKeyID: m.recipientKeyID,
+		Y: m.y, TopHalfCtr: m.topHalfCtr, EncryptedMsg: m.encryptedMsg, Authenticator: m.authenticator,
+		Cache: m.serializeUnsignedCache}
+	for _, k := range m.oldMACKeys {
+		r.OldMACKeys = append(r.OldMACKeys, []byte(k))
+	}
+	return r, true
+}
+
+// VerifTLV is the exported image of tlv.
+type VerifTLV struct {
+	Type, Length uint16
+	Value        []byte
+}
+
+func toVerifTLV(t tlv) VerifTLV { return VerifTLV{t.tlvType, t.tlvLength, t.tlvValue} }
+func (t VerifTLV) internal() tlv { return tlv{t.Type, t.Length, t.Value} }
+
+// VerifTLVSer is tlv.serialize.
+func VerifTLVSer(t VerifTLV) []byte { return t.internal().serialize() }
+
+// VerifTLVDeser is tlv.deserialize.
+func VerifTLVDeser(b []byte) (VerifTLV, bool) {
+	t := tlv{}
+	if err := t.deserialize(b); err != nil {
+		return VerifTLV{}, false
+	}
+	return toVerifTLV(t), true
+}
+
+// VerifPlainSer is plainDataMsg.serialize.
+func VerifPlainSer(msg []byte, ts []VerifTLV) []byte {
+	p := plainDataMsg{message: msg}
+	for _, t := range ts {
+		p.tlvs = append(p.tlvs, t.internal())
+	}
+	return p.serialize()
+}
+
+// VerifPlainPadSer is plainDataMsg.pad().serialize().
+func VerifPlainPadSer(msg []byte, ts []VerifTLV) []byte {
+	p := plainDataMsg{message: msg}
+	for _, t := range ts {
+		p.tlvs = append(p.tlvs, t.internal())
+	}
+	return p.pad().serialize()
+}
+
+// VerifPlainDeser is plainDataMsg.deserialize.
+func VerifPlainDeser(b []byte) ([]byte, []VerifTLV, bool) {
+	p := plainDataMsg{}
+	if err := p.deserialize(b); err != nil {
+		return nil, nil, false
+	}
+	var ts []VerifTLV
+	for _, t := range p.tlvs {
+		ts = append(ts, toVerifTLV(t))
+	}
+	return p.message, ts, true
+}
+
+// VerifGenSMPTLV is genSMPTLV.
+func VerifGenSMPTLV(tp uint16, mpis ...*big.Int) VerifTLV { return toVerifTLV(genSMPTLV(tp, mpis...)) }
+
+// VerifSMP1TLV is smp1Message.tlv.
+func VerifSMP1TLV(m [6]*big.Int, hasQuestion bool, question string) VerifTLV {
+	return toVerifTLV(smp1Message{g2a: m[0], c2: m[1], d2: m[2], g3a: m[3], c3: m[4], d3: m[5],
+		hasQuestion: hasQuestion, question: question}.tlv())
+}
+
+// VerifToSmpMessage runs tlv.smpMessage and flattens the result to its MPIs in wire order.
+func VerifToSmpMessage(t VerifTLV) (question string, hasQuestion bool, mpis []*big.Int, ok bool) {
+	m, ok := t.internal().smpMessage()
+	if !ok {
+		return "", false, nil, false
+	}
+	switch x := m.(type) {
+	case smp1Message:
+		return x.question, x.hasQuestion, []*big.Int{x.g2a, x.c2, x.d2, x.g3a, x.c3, x.d3}, true
+	case smp2Message:
+		return "", false, []*big.Int{x.g2b, x.c2, x.d2, x.g3b, x.c3, x.d3, x.pb, x.qb, x.cp, x.d5, x.d6}, true
+	case smp3Message:
+		return "", false, []*big.Int{x.pa, x.qa, x.cp, x.d5, x.d6, x.ra, x.cr, x.d7}, true
+	case smp4Message:
+		return "", false, []*big.Int{x.rb, x.cr, x.d7}, true
+	case smpMessageAbort:
+		return "", false, nil, true
+	}
+	return "", false, nil, false
+}
